@@ -169,8 +169,19 @@ CLAIMED["C19"] = (
     "Euclid, lcm, FFT and polynomial arithmetic are numeric and declined.",
     _NOTE, "DESIGN.md section 5, C19")
 
-for _p in ["C02", "C03", "C10",
-           "C16"]:
+CLAIMED["C16"] = (
+    "pairwise-field rule on every UnifierBase handler (class test dominates "
+    "reads of the target, same field on both sides, records threaded), "
+    "ownership rule on UnificationRecord construction sites, path rule on the "
+    "candidate filters, inverse-table check of the matchpy to/from mappers over "
+    "the op dataclasses",
+    "Partial: soundness-relevant structure is decided for all inputs (what is "
+    "matched against what, who may create records, how bindings merge, that the "
+    "bridge is lossless field by field). Completeness and the AC search are "
+    "declined.",
+    _NOTE, "DESIGN.md section 5, C16")
+
+for _p in ["C02", "C03", "C10"]:
     NOT_APPLICABLE[_p] = ("check under construction in this revision (see "
                           "DESIGN.md for the planned static rule)")
 NOT_APPLICABLE["C18"] = (
